@@ -192,7 +192,7 @@ def pairs(tier):
         out.append(((COMPILE_OPS[a], COMPILE_OPS[b]), 1, True))        # opcode granularity in the tokenizer
     for a, b in itertools.product(MATCH_OPS, MATCH_OPS + COMPILE_OPS[:3] + COMPILE_OPS[6:]):
         out.append(((a, b), 1, False))
-    core = [0, 1, 4, 6]
+    core = [0, 1, 4, 5]        # bound 2 costs the square of the number of scheduling points: the short compiles only
     for a, b in itertools.combinations_with_replacement(core, 2):
         out.append(((COMPILE_OPS[a], COMPILE_OPS[b]), 2, False))
     for a, b, c in itertools.combinations(range(6), 3):
@@ -205,8 +205,9 @@ def shards(tier, seed):
     out = []
     for pi, (ops, bound, opcode) in enumerate(pairs(tier)):
         if bound >= 2:
+            # sharded by the index of the first deviating scheduling point; the last range is open-ended so that nothing is left out
             for lo in range(0, 900, 30):
-                out.append((tier, pi, (lo, lo + 30)))
+                out.append((tier, pi, (lo, lo + 30 if lo + 30 < 900 else 10 ** 9)))
         else:
             out.append((tier, pi, None))
     # longest explorations first (custom aliases parse nested selectors: several times more scheduling points)
